@@ -163,7 +163,7 @@ def make_struct_members(xml_elem, dynamic_array=False):
                 yield model.StructMember(xml_elem_name, xml_elem_type, bound=sizer_name[1:], docstring=comment)
 
             elif size and "THIS_IS_VARIABLE_SIZE_ARRAY" in size:
-                sizer_name = "numOf" + xml_elem_name[0].upper() + xml_elem_name[1:]
+                sizer_name = "numOf" + xml_elem_name[:1].upper() + xml_elem_name[1:]
                 yield model.StructMember(xml_elem_name, xml_elem_type, bound=sizer_name, docstring=comment)
 
             elif "isVariableSize" in dimension.attrib:
